@@ -97,6 +97,10 @@ PROP = dict(
         'Delete with 1 <= len <= n and offset < len, Member/BinarySearch/'
         'DeleteMember with 0 <= len <= n; sorted operations only on a sorted '
         'prefix',
+        'after Delete/DeleteMember of an array of len elements the vacated '
+        'position len-1 is unspecified (left as it was or cleared): the '
+        'reference adopts what it reads as; its storage bits stay under the '
+        'slot-level oracles and element len is compared as before',
         'storage is sized in whole slots (ceil(n*B/S) slots), as the slot '
         'type is the unit of access; byte-granular buffers smaller than '
         'that (as in some documentation snippets) are out of scope',
